@@ -29,6 +29,7 @@ import (
 	"strconv"
 	"strings"
 	"sync"
+	"unicode/utf8"
 
 	"github.com/emersion/go-message/textproto"
 	"github.com/emersion/go-sasl"
@@ -643,7 +644,7 @@ func (endp *Endpoint) wrapErr(msgId string, mangleUTF8 bool, command string, err
 		b := strings.Builder{}
 		b.Grow(len(res.Message))
 		for _, ch := range res.Message {
-			if ch > 128 {
+			if ch >= utf8.RuneSelf {
 				b.WriteRune('?')
 			} else {
 				b.WriteRune(ch)
